@@ -50,10 +50,12 @@ PROGRAM = '''
 from pathlib import Path
 from typing import Annotated, Any
 import pickle
-from pytask import PickleNode, PathNode, PythonNode, Product, task
+from pytask import DirectoryNode, PickleNode, PathNode, PythonNode, Product, task
 ROOT = Path(__file__).parent
 
 def N(i):
+    if i >= 9000:      # a provisional node among the declared products: nothing is stored for it
+        return DirectoryNode(root_dir=ROOT / f"dyn{{i}}", pattern="*.x")
     return PickleNode(name=f"n{{i}}", path=ROOT / f"out{{i}}.pkl")
 
 DECL = {decl}
@@ -84,6 +86,10 @@ def show(x):
         return ["tuple", [show(v) for v in x]]
     if isinstance(x, Path):
         return ["P", x.name]
+    if isinstance(x, bool):
+        return ["B", x]
+    if isinstance(x, float):
+        return ["F", x]
     if x is None or isinstance(x, int):
         return ["L", 0 if x is None else x]
     return ["OBJ", type(x).__name__]
@@ -92,6 +98,9 @@ def show(x):
 def task_kw({params}, out: Annotated[Path, Product] = ROOT / "kw.json"):
     out.write_text(json.dumps({{{shown}}}))
 '''
+
+
+TYPED = ["1", "True", "1.0", "0", "False", "0.0"]
 
 
 def src(t, leaf):
@@ -136,8 +145,8 @@ def kw_case(c, d):
     if proj.exists():
         shutil.rmtree(proj)
     proj.mkdir()
-    params, shown, decos = [], [], []
-    order = {"kwargs": 0, "python": 1, "python_nohash": 1, "path_default": 2, "mixed_default": 2}
+    params, shown, decos, kwitems = [], [], [], []
+    order = {"kwargs": 0, "typed_kwargs": 0, "python": 1, "python_nohash": 1, "path_default": 2, "mixed_default": 2, "typed_default": 2}
     for name, form, t in sorted(c["args"], key=lambda a: order[a[1]]):
         if form == "python":          # Annotated PythonNode values in nested containers
             params.append(f"{name}: Annotated[Any, {src(t, lambda i: f'V({i})')}]")
@@ -149,10 +158,21 @@ def kw_case(c, d):
             params.append(f"{name}: Annotated[Any, {src(t, lambda i: f'W({i})')}]")
         elif form == "mixed_default":  # a default mixing plain values and PythonNodes
             params.append(f"{name}: Any = {src(t, lambda i: f'W({i})' if i % 2 else str(i))}")
+        elif form in ("typed_default", "typed_kwargs"):
+            # plain values that compare equal but are different (1, True, 1.0 / 0, False, 0.0) next to a path
+            (proj / f"in_{name}.txt").write_text("t")
+            lit = "[" + src(t, lambda i: TYPED[i % 6]) + ", ROOT / " + repr(f"in_{name}.txt") + "]"
+            if form == "typed_default":
+                params.append(f"{name}: Any = {lit}")
+            else:
+                kwitems.append(f"{name!r}: {lit}")
+                params.append(f"{name}")
         elif form == "kwargs":        # @task(kwargs={name: value})
-            decos.append(f"@task(kwargs={{{name!r}: {src(t, lambda i: f'V({i})')}}})")
+            kwitems.append(f"{name!r}: {src(t, lambda i: f'V({i})')}")
             params.append(f"{name}")
         shown.append(f"{name!r}: show({name})")
+    if kwitems:      # one decorator for all keyword arguments given through @task(kwargs=...)
+        decos.append("@task(kwargs={" + ", ".join(kwitems) + "})")
     (proj / "task_k.py").write_text(KW_PROGRAM.format(decos="\n".join(decos), params=", ".join(params), shown=", ".join(shown)))
     r = run_build(proj)
     f = proj / "kw.json"
